@@ -64,6 +64,8 @@ type Term struct {
 	Name string // OpVar / OpUF
 	Hi   int    // OpExtract
 	Lo   int
+	RLo  uint64 // unsigned value range (bit-vectors only)
+	RHi  uint64
 }
 
 func (t *Term) IsConst() bool { return t.Op == OpConst }
@@ -119,7 +121,115 @@ func (tt *TermTable) intern(t *Term) *Term {
 	tt.n++
 	t.ID = tt.n
 	tt.tab[k] = t
+	t.computeRange()
 	return t
+}
+
+// computeRange derives a sound unsigned interval for the term's value.
+func (t *Term) computeRange() {
+	if t.W == 0 {
+		t.RLo, t.RHi = 0, 1
+		return
+	}
+	m := mask(t.W)
+	t.RLo, t.RHi = 0, m
+	switch t.Op {
+	case OpConst:
+		t.RLo, t.RHi = t.Val, t.Val
+	case OpZExt:
+		t.RLo, t.RHi = t.Args[0].RLo, t.Args[0].RHi
+	case OpSExt:
+		a := t.Args[0]
+		if a.RHi < uint64(1)<<uint(a.W-1) {
+			t.RLo, t.RHi = a.RLo, a.RHi
+		}
+	case OpExtract:
+		a := t.Args[0]
+		if t.Lo == 0 && a.RHi <= m {
+			t.RLo, t.RHi = a.RLo, a.RHi
+		}
+	case OpAdd:
+		a, b := t.Args[0], t.Args[1]
+		hi, c := bits.Add64(a.RHi, b.RHi, 0)
+		if c == 0 && hi <= m {
+			t.RLo, t.RHi = a.RLo+b.RLo, hi
+		}
+	case OpSub:
+		a, b := t.Args[0], t.Args[1]
+		if a.RLo >= b.RHi {
+			t.RLo, t.RHi = a.RLo-b.RHi, a.RHi-b.RLo
+		}
+	case OpMul:
+		a, b := t.Args[0], t.Args[1]
+		h, l := bits.Mul64(a.RHi, b.RHi)
+		if h == 0 && l <= m {
+			t.RLo, t.RHi = a.RLo*b.RLo, l
+		}
+	case OpUDiv:
+		a, b := t.Args[0], t.Args[1]
+		if b.RLo > 0 {
+			t.RLo, t.RHi = a.RLo/b.RHi, a.RHi/b.RLo
+		}
+	case OpURem:
+		a, b := t.Args[0], t.Args[1]
+		if b.RLo > 0 {
+			t.RHi = a.RHi
+			if b.RHi-1 < t.RHi {
+				t.RHi = b.RHi - 1
+			}
+		}
+	case OpBAnd:
+		a, b := t.Args[0], t.Args[1]
+		t.RHi = a.RHi
+		if b.RHi < t.RHi {
+			t.RHi = b.RHi
+		}
+	case OpBOr, OpBXor:
+		a, b := t.Args[0], t.Args[1]
+		x := a.RHi
+		if b.RHi > x {
+			x = b.RHi
+		}
+		n := bits.Len64(x)
+		if n < 64 {
+			t.RHi = (uint64(1) << uint(n)) - 1
+		}
+		if t.Op == OpBOr {
+			t.RLo = a.RLo
+			if b.RLo > t.RLo {
+				t.RLo = b.RLo
+			}
+		}
+	case OpLShr:
+		a, b := t.Args[0], t.Args[1]
+		if b.IsConst() && b.Val < 64 {
+			t.RLo, t.RHi = a.RLo>>b.Val, a.RHi>>b.Val
+		} else {
+			t.RHi = a.RHi
+		}
+	case OpShl:
+		a, b := t.Args[0], t.Args[1]
+		if b.IsConst() && b.Val < 64 && bits.Len64(a.RHi)+int(b.Val) <= t.W {
+			t.RLo, t.RHi = a.RLo<<b.Val, a.RHi<<b.Val
+		}
+	case OpIte:
+		a, b := t.Args[1], t.Args[2]
+		t.RLo, t.RHi = a.RLo, a.RHi
+		if b.RLo < t.RLo {
+			t.RLo = b.RLo
+		}
+		if b.RHi > t.RHi {
+			t.RHi = b.RHi
+		}
+	case OpConcat:
+		a, b := t.Args[0], t.Args[1]
+		t.RLo = a.RLo<<uint(b.W) | b.RLo
+		t.RHi = a.RHi<<uint(b.W) | b.RHi
+		if a.RLo != a.RHi {
+			t.RLo = a.RLo << uint(b.W)
+			t.RHi = a.RHi<<uint(b.W) | mask(b.W)
+		}
+	}
 }
 
 func (tt *TermTable) Bool(b bool) *Term {
@@ -253,6 +363,9 @@ func (tt *TermTable) Eq(a, b *Term) *Term {
 	}
 	if a.IsConst() && b.IsConst() {
 		return tt.Bool(a.Val == b.Val)
+	}
+	if a.W > 0 && (a.RHi < b.RLo || b.RHi < a.RLo) {
+		return tt.False
 	}
 	if a.W == 0 {
 		if a.IsConst() {
@@ -466,6 +579,34 @@ func (tt *TermTable) Cmp(op Op, a, b *Term) *Term {
 	}
 	if a == b {
 		return tt.Bool(op == OpULe || op == OpSLe)
+	}
+	{
+		// interval reasoning; signed compares coincide with unsigned ones when both are non-negative
+		half := uint64(1) << uint(a.W-1)
+		uop := op
+		if (op == OpSLt || op == OpSLe) && a.RHi < half && b.RHi < half {
+			if op == OpSLt {
+				uop = OpULt
+			} else {
+				uop = OpULe
+			}
+		}
+		switch uop {
+		case OpULt:
+			if a.RHi < b.RLo {
+				return tt.True
+			}
+			if a.RLo >= b.RHi {
+				return tt.False
+			}
+		case OpULe:
+			if a.RHi <= b.RLo {
+				return tt.True
+			}
+			if a.RLo > b.RHi {
+				return tt.False
+			}
+		}
 	}
 	if op == OpULt && b.IsConst() && b.Val == 0 {
 		return tt.False
@@ -828,4 +969,3 @@ func mask64(w int) uint64 {
 	return mask(w)
 }
 
-var _ = bits.Len
